@@ -795,6 +795,200 @@ static void run_case(uint64_t idx, vf_rng *r, int fr, size_t ecap, size_t eoff, 
 	case_free();
 }
 
+
+/* ------------------------------------------------------------------ raw (codec-less) encode queue */
+/*
+ * Without encoder mpt_queue_push() appends as much as fits (pending part = scratch),
+ * push(0,0) commits pending to finished, push(1,NULL) rolls the pending part back.
+ * Byte model: finished F, pending P; queue content == F+P, done == |F|, scratch == |P|;
+ * the transport (crop + done -= k) sees the committed bytes exactly once and in order.
+ */
+#define RAWMAX 70000
+static struct {
+	MPT_STRUCT(encode_queue) eq;
+	uint8_t m[RAWMAX];   /* F + P */
+	size_t nf, np;
+	uint8_t *commit;     /* everything committed so far */
+	size_t ncommit, ntaken;
+	uint8_t next;
+} R;
+static const char *rdesc_raw(void)
+{
+	static char b[200];
+	snprintf(b, sizeof(b), "raw eq{%s done=%zu scratch=%zu} model{finished=%zu pending=%zu}", qdesc(&R.eq.data), R.eq._state.done, R.eq._state.scratch, R.nf, R.np);
+	return b;
+}
+static void raw_check(const char *op)
+{
+	const MPT_STRUCT(queue) *q = &R.eq.data;
+	const uint8_t *b = q->base;
+	size_t i, n = R.nf + R.np;
+	vf_count("monitor:raw-model-compare", 1);
+	VF_CHECK(q->len <= q->max && q->off <= q->max, "model:raw_queue:range", "after %s: %s", op, rdesc_raw());
+	VF_CHECK(R.eq._state.done == R.nf && R.eq._state.scratch == R.np && q->len == n, "model:raw_push:accounting",
+	         "after %s: finished/pending sizes differ from the byte model: %s", op, rdesc_raw());
+	for (i = 0; i < n; i++) {
+		uint8_t v = b[(q->off + i) % q->max];
+		if (v != R.m[i]) vf_fail("model:raw_push:content", "after %s: byte %zu is %02x, model %02x; %s", op, i, v, R.m[i], rdesc_raw());
+	}
+	if (wrapped(q)) vf_count("state:raw-wrapped", 1);
+}
+static void raw_push(vf_rng *r, size_t n, const char *why)
+{
+	size_t nfree = R.eq.data.max - R.eq.data.len, exp = n < nfree ? n : nfree, i;
+	size_t off = R.eq.data.off, len = R.eq.data.len, max = R.eq.data.max;
+	uint8_t *d = vf_xalloc(n);
+	ssize_t ret;
+	(void) r;
+	for (i = 0; i < n; i++) { if (!++R.next) R.next = 1; d[i] = R.next; }
+	vf_at("mpt_queue_push");
+	vf_count("mpt_queue_push(raw)", 1);
+	ret = mpt_queue_push(&R.eq, n, d);
+	vf_fp_u64(0x6000000 | n);
+	vf_log("raw push(%zu) [%s] = %s%zd | %s", n, why, ret < 0 ? errname(ret) : "", ret < 0 ? (ssize_t) 0 : ret, rdesc_raw());
+	if (!nfree) {
+		VF_CHECK(ret == MPT_ERROR(MissingBuffer), "model:raw_push:full-queue", "push(%zu) on a full queue = %zd; %s", n, ret, rdesc_raw());
+		vf_count("raw:MissingBuffer", 1);
+	} else {
+		/* accepts what fits and says how much */
+		VF_CHECK(ret == (ssize_t) exp, "model:raw_push:return", "push(%zu) with %zu bytes free = %s%zd, expected %zu; %s", n, nfree,
+		         ret < 0 ? errname(ret) : "", ret < 0 ? (ssize_t) 0 : ret, exp, rdesc_raw());
+		if (R.nf + R.np + exp > RAWMAX) vf_inconclusive("raw model too small");
+		memcpy(R.m + R.nf + R.np, d, exp);
+		R.np += exp;
+		if (exp < n) {
+			vf_count("state:raw-partial-accept", 1);
+			if (max && off + len < max && off + len + exp > max) vf_count("state:raw-partial-accept-wrapping", 1);
+			else if (max && off + len >= max) vf_count("state:raw-partial-accept-in-upper-part", 1);
+		}
+	}
+	vf_xfree(d, n);
+	raw_check("push");
+}
+static void raw_commit(void)
+{
+	ssize_t ret;
+	vf_at("mpt_queue_push");
+	vf_count("mpt_queue_push(raw commit)", 1);
+	ret = mpt_queue_push(&R.eq, 0, 0);
+	vf_log("raw commit = %zd | %s", ret, rdesc_raw());
+	VF_CHECK(ret == (ssize_t) (R.nf + R.np), "model:raw_push:commit-return", "commit = %zd, queue holds %zu bytes; %s", ret, R.nf + R.np, rdesc_raw());
+	if (R.ncommit + R.np > (1u << 20)) vf_inconclusive("raw commit log too small");
+	memcpy(R.commit + R.ncommit, R.m + R.nf, R.np);
+	R.ncommit += R.np;
+	if (R.np) vf_count("raw:commit-with-pending", 1);
+	R.nf += R.np; R.np = 0;
+	raw_check("commit");
+}
+static void raw_rollback(size_t n)
+{
+	ssize_t ret;
+	vf_at("mpt_queue_push");
+	vf_count("mpt_queue_push(raw rollback)", 1);
+	ret = mpt_queue_push(&R.eq, n, 0);
+	vf_log("raw rollback(%zu) = %zd | %s", n, ret, rdesc_raw());
+	if (n == 1 && R.np) {
+		VF_CHECK(ret == 0, "model:raw_push:rollback-refused", "push(1, NULL) with %zu pending bytes = %zd; %s", R.np, ret, rdesc_raw());
+		R.np = 0;
+		vf_count("raw:rollback", 1);
+	} else {
+		VF_CHECK(ret < 0, "model:raw_push:rollback-accepted", "push(%zu, NULL) with %zu pending bytes = %zd; %s", n, R.np, ret, rdesc_raw());
+		vf_count("raw:rollback-refused", 1);
+	}
+	raw_check("rollback");
+}
+static void raw_take(vf_rng *r)
+{
+	size_t done = R.eq._state.done, k;
+	uint8_t *buf;
+	int ret;
+	if (!done) return;
+	k = vf_chance(r, 1, 2) ? done : 1 + vf_below(r, (uint32_t) done);
+	buf = vf_xalloc(k);
+	vf_at("mpt_queue_get");
+	ret = mpt_queue_get(&R.eq.data, 0, k, buf);
+	VF_CHECK(ret >= 0, "model:queue_get:refused", "get(0,%zu) = %d; %s", k, ret, rdesc_raw());
+	vf_at("mpt_queue_crop");
+	ret = mpt_queue_crop(&R.eq.data, 0, k);
+	VF_CHECK(ret >= 0, "model:queue_crop:refused", "crop(0,%zu) = %d; %s", k, ret, rdesc_raw());
+	R.eq._state.done -= k;
+	vf_fp_u64(0x7000000 | k);
+	vf_log("raw take %zu | %s", k, rdesc_raw());
+	/* committed bytes arrive exactly once and in order */
+	vf_count("monitor:raw-wire-compare", 1);
+	VF_CHECK(R.ntaken + k <= R.ncommit && !memcmp(buf, R.commit + R.ntaken, k), "model:raw_wire:content",
+	         "bytes taken from the queue front differ from the committed stream at offset %zu (+%zu): %s / %s; %s", R.ntaken, k,
+	         vf_hex(hx1, 100, buf, k), vf_hex(hx2, 100, R.commit + R.ntaken, R.ntaken + k <= R.ncommit ? k : 0), rdesc_raw());
+	R.ntaken += k;
+	memmove(R.m, R.m + k, R.nf + R.np - k);
+	R.nf -= k;
+	vf_xfree(buf, k);
+	if (R.np) vf_count("state:raw-take-with-pending", 1);
+	raw_check("take");
+}
+static void case_raw(uint64_t idx, vf_rng *r)
+{
+	static const uint16_t caps[] = { 0, 1, 2, 3, 4, 5, 7, 8, 12, 16, 17, 31, 32, 33, 64, 100, 255, 256, 257 };
+	size_t cap = caps[vf_below(r, sizeof(caps) / sizeof(*caps))], growby = 1 + vf_below(r, vf_chance(r, 1, 2) ? 8 : 300);
+	int nops = vf_range(r, 20, vf_thorough ? 300 : 150), i, partial = 0;
+
+	(void) idx;
+	memset(&R.eq, 0, sizeof(R.eq));
+	R.nf = R.np = R.ncommit = R.ntaken = 0;
+	R.commit = malloc(1u << 20);
+	setup_queue(&R.eq.data, cap, cap ? vf_below(r, (uint32_t) cap) : 0);
+	vf_fp_u64(0xdaa); vf_fp_u64(cap); vf_fp_u64(R.eq.data.off);
+	vf_log("raw case: max=%zu off=%zu grow=%zu", cap, R.eq.data.off, growby);
+	for (i = 0; i < nops; i++) {
+		size_t nfree = R.eq.data.max - R.eq.data.len, n;
+		switch (vf_below(r, 12)) {
+		case 0: case 1: case 2:
+			/* single call */
+			n = vf_chance(r, 1, 3) ? nfree + 1 + vf_below(r, 20) : 1 + vf_below(r, (uint32_t) nfree + 4);
+			if (nfree + R.nf + R.np > 30000) n = 1;
+			raw_push(r, n, "single");
+			break;
+		case 3: case 4: case 5: {
+			/* the loop of mpt_stream_push(): push, enlarge on MissingBuffer, push the rest */
+			size_t left = vf_chance(r, 1, 2) ? nfree + 1 + vf_below(r, 40) : 1 + vf_below(r, 300);
+			int guard = 0;
+			if (R.nf + R.np + left > 30000) left = 1;
+			while (left && ++guard < 64) {
+				size_t before = R.np;
+				raw_push(r, left, "loop");
+				if (R.np > before) {
+					if (R.np - before < left) { partial = 1; }
+					left -= R.np - before;
+					if (left) vf_count("state:raw-continued-after-partial-accept", 1);
+					continue;
+				}
+				grow(&R.eq.data, vf_chance(r, 1, 2) ? growby : left + growby, "raw");
+				raw_check("prepare");
+				vf_count("raw:grown", 1);
+			}
+			break; }
+		case 6: case 7: raw_commit(); break;
+		case 8: raw_rollback(vf_chance(r, 1, 5) ? 2 + vf_below(r, 5) : 1); break;
+		case 9: case 10: raw_take(r); break;
+		default:
+			if (R.eq.data.max) {
+				vf_at("mpt_queue_align");
+				mpt_queue_align(&R.eq.data, vf_below(r, (uint32_t) R.eq.data.max));
+				vf_log("raw align | %s", rdesc_raw());
+				raw_check("align");
+			}
+		}
+	}
+	raw_commit();
+	while (R.eq._state.done) raw_take(r);
+	VF_CHECK(R.ntaken == R.ncommit && !R.eq.data.len, "model:raw_wire:conservation", "committed %zu bytes, taken %zu, %zu left in the queue", R.ncommit, R.ntaken, R.eq.data.len);
+	vf_count("monitor:raw-conservation-at-end", 1);
+	if (partial && R.ncommit > 8) vf_nontrivial();
+	vf_sample("raw encode_queue max=%zu: %d operations (push loops with partial acceptance, commit, rollback, take), %zu bytes committed and taken", cap, nops, R.ncommit);
+	free(R.eq.data.base);
+	free(R.commit);
+}
+
 /* ------------------------------------------------------------------ entry */
 /* [0, NG): small grid: every framing x capacity 4..GRID x every start offset (encoder and decoder alike) */
 static size_t grid_max(void) { return vf_thorough ? 32 : 12; }
@@ -806,7 +1000,9 @@ static uint64_t n_grid(void)
 }
 static uint64_t n_hist(void) { return vf_thorough ? 600000 : 40000; }
 
-uint64_t vf_cases(void) { return n_grid() + n_hist(); }
+static uint64_t n_raw(void) { return vf_thorough ? 100000 : 8000; }
+
+uint64_t vf_cases(void) { return n_grid() + n_hist() + n_raw(); }
 
 void vf_case(uint64_t idx, vf_rng *r)
 {
@@ -820,6 +1016,7 @@ void vf_case(uint64_t idx, vf_rng *r)
 		return;
 	}
 	idx -= n_grid();
+	if (idx >= n_hist()) { case_raw(idx - n_hist(), r); return; }
 	{
 		int fr = idx % 4;
 		size_t ecap = pick_cap(r), dcap = pick_cap(r);
